@@ -198,7 +198,7 @@ def pmCmd (st : St) : List String → St × String
     | none => (st, "bad-op")
   | ["call", who, h] => match fromHex h with
     | some bs =>
-      let c := if who = "loop" then Portmap.Caller.loopback else Portmap.Caller.other
+      let c := if who.startsWith "loop" then Portmap.Caller.loopback else Portmap.Caller.other
       let r := Portmap.handleCall pmChecks Gen.maxRpcAuth Gen.maxXdrString st.pmAddr st.pm c bs
       ({ st with pm := r.1 }, match r.2 with | some b => toHex b | none => "none")
     | none => (st, "bad-op")
@@ -306,6 +306,13 @@ def tlsCmd : List String → String
     let cs : Tls.Cells := { listener := 0, content := fun _ => 1, nextCell := 1 }
     let r := Tls.cloneCell tlsFacts cs cs.listener
     if Tls.presented (Tls.reload r.1 r.2 2) == 2 then "new" else "old"
+  | ["rotate", "updated"] =>
+    -- GetExportOptions (clone), UpdateExportOptions (stores a clone of that), GetExportOptions again (clone)
+    let cs : Tls.Cells := { listener := 0, content := fun _ => 1, nextCell := 1 }
+    let r1 := Tls.cloneCell tlsFacts cs cs.listener
+    let r2 := Tls.cloneCell tlsFacts r1.1 r1.2
+    let r3 := Tls.cloneCell tlsFacts r2.1 r2.2
+    if Tls.presented (Tls.reload r3.1 r3.2 2) == 2 then "new" else "old"
   | _ => "bad-op"
 
 def poolCmd : List String → String
